@@ -140,6 +140,11 @@ def gen_program(rng: random.Random, focus: str, pid: int) -> dict:
                  "outkind": {"arc": "arc", "origin": "arc", "angle": "arc"}.get(kind, kind)}
             if kind == "project":
                 e["labels"] = sorted(rng.sample(LABELS, rng.choice([1, 2])))
+                e["first_labels"] = list(e["labels"])
+                if len(e["labels"]) == 1 and rng.random() < 0.35:
+                    # a second surface given in a second call: the edge is projected to both
+                    e["extra"] = rng.choice([x for x in LABELS if x not in e["labels"]])
+                    e["labels"] = sorted(e["labels"] + [e["extra"]])
                 e["swap"] = rng.random() < 0.5      # project_edge(c2, c1): not direction dependent
                 e["where"] = ["any", 0]
             if kind == "arc" and rng.random() < 0.15:
